@@ -5,7 +5,8 @@
    instruction graph of the translated block, in order, with the ids of the temporaries first seen in
    it, and the block's successors), and a list of sampled machine states.
 
-   fst (tie)    : the dumped IL is well formed (entry/exit set) and, for the forms the mirror covers,
+   fst (tie)    : the dumped IL is well formed (entry/exit set), the decoded fields and the address satisfy the
+                  side conditions of the theorems (case_okb) and, for the forms the mirror covers,
                   `mirror (decode word) = dumped IL` syntactically (this transfers the theorems of
                   Props/C02.v to this encoding for ALL states).
    snd (oracle) : for every sampled state, running the dumped IL with the reference IL semantics
@@ -15,6 +16,7 @@
                   write-only `$zero` scalar and `branching_condition` are ignored. *)
 From Coq Require Import ZArith List Bool NArith.
 From Falcon Require Import Base.Res IL.Const IL.ConstSpec IL.Expr IL.Func IL.Loc Exec.Sem Isa.ILRun Isa.Mips Isa.MipsLift.
+From Falcon Require Isa.Ppc.
 Import ListNotations.
 Local Open Scope Z_scope.
 
@@ -23,8 +25,11 @@ Record sample := mksample { sm_regs : list (Z * Z); sm_hi : Z; sm_lo : Z; sm_see
 (* (address, graph, temporaries first seen in the graph) list, successors *)
 Definition lifted := (list (Z * cfg * list N) * list (Z * option expr))%type.
 
+Record psample := mkpsample { ps_regs : list (Z * Z); ps_lr : Z; ps_ctr : Z; ps_cr : Z; ps_ca : Z; ps_so : Z; ps_seed : Z }.
+
 Inductive case :=
 | KMips (big : bool) (addr : Z) (ws : list Z) (l : option lifted) (samples : list sample)
+| KPpc (addr : Z) (w : Z) (l : option lifted) (psamples : list psample)
 | KSkip.
 
 (* ---------- sampled machine states ---------- *)
@@ -118,18 +123,10 @@ Definition graph_wf (g : cfg) : bool :=
   end.
 
 Definition tie (bg : bool) (addr : Z) (ws : list Z) (l : lifted) : bool :=
-  forallb graph_wf (graphs_of l) &&
+  forallb graph_wf (graphs_of l) && case_okb addr ws &&
   match mirror_block bg addr ws (map (fun x => snd x) (fst l)) with
   | None => true                                      (* form not mirrored: no syntactic claim *)
   | Some m => lifted_eqb m (map (fun x => (fst (fst x), snd (fst x))) (fst l), snd l)
-  end.
-
-Definition ck (k : case) : bool * bool :=
-  match k with
-  | KSkip => (true, true)
-  | KMips bg addr ws None _ => (true, true)           (* not accepted by the lifter: the property is silent *)
-  | KMips bg addr ws (Some l) samples =>
-      (tie bg addr ws l, forallb (oracle1 bg addr ws l) samples)
   end.
 
 (* ---------- diagnostics (development aid; not used by ck) ---------- *)
@@ -168,3 +165,104 @@ Definition explain (k : case) : list diag :=
   | KMips bg addr ws (Some l) samples => map (explain1 bg addr ws l) samples
   | _ => []
   end.
+
+Import Isa.Ppc.
+(* ================================================================== PowerPC =====
+   Scalars are interned in the fixed order r0..r31 = 0..31, lr = 32, ctr = 33, carry = 34 (XER[CA]),
+   cr0-lt cr0-gt cr0-eq cr0-so ... cr7-so = 35..66 (CR bit i = 35 + i).  The IL has no XER[SO]:
+   the sampled states have every crN-so equal to XER[SO] (then "copied from XER[SO]" = "unchanged"). *)
+Definition P_LR : Z := 32.
+Definition P_CTR : Z := 33.
+Definition P_CA : Z := 34.
+Definition P_CR0 : Z := 35.
+
+Definition mk_pstate (addr : Z) (sm : psample) : pstate :=
+  mkp (fun r => if (r <? 0) || (31 <? r) then 0
+                else match assocZ (ps_regs sm) r with Some v => v mod Ppc.W | None => dflt_reg (r + 1) end)
+      (ps_lr sm mod Ppc.W) (ps_ctr sm mod Ppc.W)
+      (fun i => if i mod 4 =? 3 then ps_so sm mod 2 else (ps_cr sm / 2 ^ (31 - i)) mod 2)
+      (ps_ca sm mod 2) (ps_so sm mod 2) addr
+      (fun a => (a * 167 + ps_seed sm) mod 256).
+
+Definition p_ea (i : pinstr) (s : pstate) : option (Z * Z) :=     (* (address, bytes touched) *)
+  match i with
+  | PLbz _ ra d | PLwz _ ra d | PStw _ ra d => Some (Ppc.a32 (ra0 s ra + exts16 d), 4)
+  | PLwzu _ ra d | PStwu _ ra d => Some (Ppc.a32 (pgpr s ra + exts16 d), 4)
+  | PStmw rs ra d => Some (Ppc.a32 (ra0 s ra + exts16 d), 4 * (32 - rs))
+  | _ => None
+  end.
+Fixpoint zrange (from : Z) (n : nat) : list Z :=
+  match n with O => [] | Datatypes.S n => from :: zrange (from + 1) n end.
+Definition pwindow (w : Z) (s : pstate) : list Z :=
+  match Ppc.decode w with
+  | Some i => match p_ea i s with
+              | Some (ea, n) => map (fun k => Ppc.a32 (ea - ea mod 4 + k)) (zrange (-4) (Z.to_nat (n + 12)))
+              | None => []
+              end
+  | None => []
+  end.
+
+Definition gprs32 : list Z := 0 :: regs31.
+Definition crbits : list Z := zrange 0 32.
+Definition pembed (s : pstate) (win : list Z) : sstate :=
+  mkst (map (fun r => (rkey r, mkc 32 (pgpr s r))) gprs32 ++
+        [(rkey P_LR, mkc 32 (plr s)); (rkey P_CTR, mkc 32 (pctr s)); (rkey P_CA, mkc 1 (pca s))] ++
+        map (fun i => (rkey (P_CR0 + i), mkc 1 (pcr s i))) crbits)
+       (mkbmem true (map (fun a => (a, pmem s a)) win)).
+
+Definition sc_agrees (en : senv) (id w v : Z) : bool :=
+  match env_get en (rkey id) with Some c => const_eqb c (mkc w v) | None => false end.
+
+Definition pagrees (s : pstate) (st : sstate) (win : list Z) : bool :=
+  forallb (fun r => sc_agrees (st_env st) r 32 (pgpr s r)) gprs32 &&
+  sc_agrees (st_env st) P_LR 32 (plr s) && sc_agrees (st_env st) P_CTR 32 (pctr s) &&
+  sc_agrees (st_env st) P_CA 1 (pca s) &&
+  forallb (fun i => sc_agrees (st_env st) (P_CR0 + i) 1 (pcr s i)) crbits &&
+  forallb (fun a => match bm_get (st_mem st) a with Some b => b =? pmem s a | None => false end) win &&
+  forallb (fun kv => existsb (Z.eqb (fst kv)) win) (bm_bytes (st_mem st)).
+
+Definition poracle1 (addr w : Z) (l : lifted) (sm : psample) : bool :=
+  let s := mk_pstate addr sm in
+  let win := pwindow w s in
+  match prun w s with
+  | PUnpred => true
+  | POk s' =>
+      match run_block (graphs_of l) (snd l) (pembed s win) with
+      | Goto a st' => (a =? ppc s') && pagrees s' st' win
+      | _ => false
+      end
+  end.
+
+Definition ck (k : case) : bool * bool :=
+  match k with
+  | KSkip => (true, true)
+  | KMips bg addr ws None _ => (true, true)           (* not accepted by the lifter: the property is silent *)
+  | KMips bg addr ws (Some l) samples =>
+      (tie bg addr ws l, forallb (oracle1 bg addr ws l) samples)
+  | KPpc addr w None _ => (true, true)
+  | KPpc addr w (Some l) samples =>
+      (forallb graph_wf (graphs_of l), forallb (poracle1 addr w l) samples)
+  end.
+
+Inductive pdiag := PDUnpred | PDOk (pc_spec : Z) (il : option Z) (bad : list (Z * option const)) | PDIl (e : option err).
+Definition pexplain1 (addr w : Z) (l : lifted) (sm : psample) : pdiag :=
+  let s := mk_pstate addr sm in
+  let win := pwindow w s in
+  match prun w s with
+  | PUnpred => PDUnpred
+  | POk s' =>
+      match run_block (graphs_of l) (snd l) (pembed s win) with
+      | Goto a st' =>
+          PDOk (ppc s') (Some a)
+            (flat_map (fun r => if sc_agrees (st_env st') r 32 (pgpr s' r) then [] else [(r, env_get (st_env st') (rkey r))]) gprs32 ++
+             (if sc_agrees (st_env st') P_LR 32 (plr s') then [] else [(P_LR, env_get (st_env st') (rkey P_LR))]) ++
+             (if sc_agrees (st_env st') P_CTR 32 (pctr s') then [] else [(P_CTR, env_get (st_env st') (rkey P_CTR))]) ++
+             (if sc_agrees (st_env st') P_CA 1 (pca s') then [] else [(P_CA, env_get (st_env st') (rkey P_CA))]) ++
+             flat_map (fun i => if sc_agrees (st_env st') (P_CR0 + i) 1 (pcr s' i) then [] else [(P_CR0 + i, env_get (st_env st') (rkey (P_CR0 + i)))]) crbits)
+      | Stuck e => PDIl (Some e)
+      | _ => PDIl None
+      end
+  end.
+Definition pexplain (k : case) : list pdiag :=
+  match k with KPpc addr w (Some l) samples => map (pexplain1 addr w l) samples | _ => [] end.
+
